@@ -8,14 +8,18 @@ IMPORTS = pv.IMPORTS
 THEOREMS = ["scratchpad_step", "scratchpad_strict", "scratchpad_monotone", "scratchpad_always_valid",
             "tx_step_union", "tx_is_union", "tx_order_independent", "txs_always_valid",
             "register_step_union", "register_is_union",
-            "concurrent_lost_update_refuted", "concurrent_lost_transaction_refuted"]
+            "concurrent_lost_update_refuted", "concurrent_lost_transaction_refuted",
+            "register_overwritten_before_ack_refuted"]
 RULE = ("serial histories of 1-12 deliveries per key over 2 owners: scratchpads with counters lower / equal / higher "
         "than the stored one, signed by the owner / by another key / junk / none / a signature made for another "
         "counter, through paid uploads (payment passing or failing), unpaid updates (key held or not) and replicated "
         "copies, under the derived key or a foreign one; transactions (valid, junk, foreign owner, duplicates, lists "
         "mixing owners); registers (permitted / unauthorised writers, forged op signatures, ops addressed to another "
         "register, different base permissions, duplicates). Overlapping deliveries to one key: every interleaving of "
-        "the store-query / write steps of 2 deliveries (exhaustive), sampled for 3. A case is non-trivial/distinct by "
+        "the store-query / write steps of 2 deliveries (exhaustive), sampled for 3. Serial back-to-back deliveries inside "
+        "the store's put->ack window (the next delivery starts after the previous one has fully returned, before or after "
+        "its disk-write acknowledgement is relayed) for transactions, registers and scratchpads on all three entry points, "
+        "and the cross-kind key coincidences. A case is non-trivial/distinct by "
         "(schedule shape, per delivery: entry point, record kind, validity class, counter relation, outcome).")
 ASSUMPTIONS = [
     "BLS signatures are symbolic (who signed, over which counter/content); the harness signs with real keys and "
@@ -137,7 +141,7 @@ def oracle(case, out):
     check_valid_content(out["store"], "final store", v)
     keys = {pv.name_of(s["key"]) for s in out["store_before"]} | {pv.name_of(s["key"]) for s in out["store"]} | \
            {pv.name_of(d["key"]) for d in ds}
-    if case.get("schedule") is None:
+    if pv.is_serial(case):
         for i, (d, r) in enumerate(zip(ds, rs)):
             if r.get("store_at_start") is None or r.get("store_after") is None:
                 continue
@@ -177,6 +181,14 @@ def oracle(case, out):
                     got = {canon(x) for x in sa["val"]["ops"]} if ka == "reg" else set()
                     if kb == "reg" and ka != "reg":
                         v.append(("reg-replaced", "delivery %d replaced the register at %s by %s" % (i, k, ka)))
+                    elif kb == "reg" and not sb["listed"] and ka == "reg" and d["body"]["t"] == "reg" and \
+                            canon(sa["val"]) != canon(sb["val"]) and \
+                            got == {canon(x) for x in d["body"].get("ops", [])} and got != want:
+                        # the earlier register is readable (write cache) but its disk write has not been
+                        # acknowledged, so the key is not indexed yet: the node takes the delivery for a first
+                        # store and writes the incoming register as it is
+                        v.append(("register-overwritten-before-ack", "delivery %d: register at %s was written but not yet acknowledged; "
+                                  "the delivered register replaced it (ops now %s, union would be %s)" % (i, k, sorted(got), sorted(want))))
                     elif kb == "reg" and canon(sa["val"]["base"]) != canon(old["base"]):
                         v.append(("reg-base-changed", "delivery %d changed the base register at %s" % (i, k)))
                     elif (ka == "reg" and kb == "reg" or off) and got != want:
@@ -338,7 +350,7 @@ def concurrent_cases(rng, thorough):
 
 def gen(ctx):
     thorough = ctx.tier != "quick"
-    cs = concurrent_cases(ctx.rng, thorough) + pv.cross_kind_cases()
+    cs = concurrent_cases(ctx.rng, thorough) + pv.cross_kind_cases() + pv.back_to_back_cases()
     n = 350 if not thorough else 6000
     cs += [rand_history(ctx.rng) for _ in range(n)]
     return cs
